@@ -38,8 +38,16 @@ func execProject(c ProjCase) (v ev.Verdict) {
 		if id < 0 {
 			continue
 		}
-		res := sim.Build(projsim.BuildReq{Label: m.Label(id), Always: op.Always})
+		// in a child process: a panic on a runner goroutine must not take the harness down
+		res := sim.ChildBuild(projsim.BuildReq{Label: m.Label(id), Always: op.Always})
 		where := fmt.Sprintf("build %d (%s always=%v)", n, m.Label(id), op.Always)
+		if res.ExitCode != 0 {
+			se := res.Stderr
+			if len(se) > 300 {
+				se = se[:300]
+			}
+			return ev.Failf("build-crash", "%s: the build process died (status %d): %s", where, res.ExitCode, se)
+		}
 		if res.Panic != "" {
 			return ev.Failf("panic", "%s: panic: %s", where, res.Panic)
 		}
@@ -125,5 +133,5 @@ func genProject(t *rapid.T) ProjCase {
 }
 
 func TestC04Project(t *testing.T) {
-	ev.Explore(run, t, "project", run.N(150, 3000), genProject, execProject)
+	ev.Explore(run, t, "project", run.N(60, 3000), genProject, execProject)
 }
